@@ -755,3 +755,8 @@ PROPS["C06"]["claim"] += (" HISTORY FORM, in-session (Proofs/EndToEnd/HistoryC06
 PROPS["C14"]["proofs"] = PROPS["C14"]["proofs"] + ["Bmc.Proofs.EndToEnd.AgainC14"]
 PROPS["C14"]["claim"] += (" AGAIN (Proofs/EndToEnd/AgainC14.lean): generated_RetrieveSDRRepository_again — after a first RetrieveSDRRepository AS TRANSLATED that succeeded OR FAILED (reservations lost, repository modified under it, "
                           "attempts used up), a second one on the same session against the device as the first left it returns, when it returns, exactly the Full Sensor Records of the one state in which it ended.")
+# the handshake scenario's verdicts about WHO may get a session (C02) are not about which suite is proposed (C12) or which keys a
+# conforming exchange yields (C01)
+_about_proof_of_password = r"a session was returned although the RAKP"
+PROPS["C12"]["irrelevant"] = {"hs": _about_proof_of_password}
+PROPS["C01"]["irrelevant"] = {"hs": _about_proof_of_password, "udp": _about_proof_of_password}
